@@ -461,6 +461,9 @@ func runWork(rng *vk.SplitMix, lwork int, call func(work []float64, lwork int), 
 // runPlain runs a call without lwork protocol.
 func runPlain(call func(), ops ...*pmat) *vk.Failure {
 	snapAll(ops...)
+	if os.Getenv("C03_NORECOVER") != "" {
+		call()
+	}
 	if r := vk.Call(call); r.Outcome != vk.Returned {
 		return vk.Failf("valid-call-panics", "call ended in %v: %s", r.Outcome, r.Text)
 	}
@@ -1333,3 +1336,25 @@ func anyPad(p [5]int, k int) bool {
 
 // pow2 returns 2^k exactly.
 func pow2(k int) float64 { return math.Ldexp(1, k) }
+
+// dimN draws a size in [0,hi] like vk.Dim (tiny values, the listed boundaries and
+// their neighbours, the uniform range) but with less weight on the tiny sizes,
+// which cannot be non-trivial under the rule of this property (n >= 3).
+func dimN(t *rapid.T, label string, hi int, boundaries ...int) int {
+	var cand []int
+	for _, b := range boundaries {
+		for _, v := range []int{b - 1, b, b + 1} {
+			if v >= 0 && v <= hi {
+				cand = append(cand, v)
+			}
+		}
+	}
+	k := rapid.IntRange(0, 99).Draw(t, label+"_mix")
+	switch {
+	case k < 12:
+		return min(hi, rapid.IntRange(0, 3).Draw(t, label+"_tiny"))
+	case k < 40 && len(cand) > 0:
+		return rapid.SampledFrom(cand).Draw(t, label+"_bnd")
+	}
+	return rapid.IntRange(min(4, hi), hi).Draw(t, label)
+}
